@@ -301,12 +301,17 @@ class Spec(core.PropSpec):
                         ops.insert(k, ["retune", ro.choice([0, 10, 50, 100])])
         kills = [[ro.randrange(1, R), ro.randint(1, 12)]] if R > 1 and ro.random() < 0.25 else []
         fail_at = sorted({ro.randint(1, 8) for _ in range(ro.randint(1, 2))}) if ro.random() < 0.2 else []
+        re_ = st("earlier")
+        # state surviving from an earlier, unrelated use of the library in the same process: another cached dataset was built, used
+        # and dropped before (its memory - and with it its id() - is free again)
+        earlier = dict(n_gets=re_.randint(0, n), keep_cache_object=re_.random() < 0.3) if re_.random() < 0.2 else None
         return dict(R=R, n=n, keys=keys, kind=rw.choice(KINDS), tf=tf, readers=readers, kills=kills, fail_at=fail_at,
-                    sched_seed=st("sched").getrandbits(32), choices=None)
+                    sched_seed=st("sched").getrandbits(32), choices=None, earlier_use=earlier)
 
     def shrink_candidates(self, plan):
         if plan.get("choices") is None and len(plan["readers"]) > 1:
             # pin the realised schedule so that removing operations perturbs the interleaving as little as possible
+            core.reset_world()
             _, trace = self._run(plan)
             yield dict(plan, choices=trace)
         if plan["tf"] is not None:
@@ -317,6 +322,8 @@ class Spec(core.PropSpec):
             yield dict(plan, kills=[])
         if plan.get("fail_at"):
             yield dict(plan, fail_at=[])
+        if plan.get("earlier_use"):
+            yield dict(plan, earlier_use=None)
         yield from core.generic_candidates(plan, [["readers"], ["readers", "*"], ["choices"]], [(["n"], 1)])
 
     def execute(self, plan):
@@ -361,6 +368,24 @@ class Spec(core.PropSpec):
                     tf_obj = OffsetKDTransform(0)
                 elif tf:
                     tf_obj = Transform(tf)
+                eu = plan.get("earlier_use")
+                if eu:
+                    other_kind = KINDS[(KINDS.index(kind) + 1) % len(KINDS)]
+                    saved_fail = Base.FAIL_AT[0]
+                    Base.FAIL_AT[0] = set()
+                    old_base = Base(other_kind, max(keys) + 1)
+                    old_ds = sdd.SharedDictDataset(old_base)
+                    for k_ in keys[:eu["n_gets"]]:
+                        old_ds[k_]
+                    keep = old_ds if eu.get("keep_cache_object") else None  # the wrapper may still be referenced; its base is not
+                    if keep is not None:
+                        keep.dataset = None
+                    del old_ds, old_base
+                    import gc
+                    gc.collect(1)  # the dropped objects are young: make their death (cycles!) a deterministic event of the plan
+                    del LOG[:]
+                    Base.FAIL_AT[0] = saved_fail
+                    out.count("fault:earlier_unrelated_cache_in_same_process")
                 ds = sdd.SharedDictDataset(Base(kind, max(keys) + 1), transform=tf_obj)
             except Exception as e:
                 out.violate("C19:raises:" + type(e).__name__, "constructor", f"{type(e).__name__}: {e}")
